@@ -309,47 +309,86 @@ fn run_queue(atomic: bool, n: usize, seed: u64, replay: Option<Vec<u8>>) -> (sch
 
 // ---------------------------------------------------------------------------------------------------------------- free run
 
+/// joins free-running worker threads with a watchdog: `Err(why)` if one panicked or they did not finish within `secs`
+/// (threads that hang -- e.g. behind a lock left held by a thread that panicked -- are abandoned, not joined)
+fn join_watchdog(hs: Vec<std::thread::JoinHandle<()>>, done: Arc<AtomicUsize>, secs: u64) -> Result<(), String> {
+    let n = hs.len();
+    let t0 = std::time::Instant::now();
+    loop {
+        if hs.iter().all(|h| h.is_finished()) { break }
+        if t0.elapsed().as_secs() >= secs {
+            let finished = hs.iter().filter(|h| h.is_finished()).count();
+            let mut why = format!("{} of {n} threads still not finished after {secs} s ({} had completed their script)", n - finished, done.load(SeqCst));
+            for h in hs { if h.is_finished() { if let Err(e) = h.join() { why += &format!("; a thread panicked: {}", panic_text(&e)); } } }
+            return Err(why);
+        }
+        std::thread::sleep(std::time::Duration::from_millis(5));
+    }
+    let mut panics = vec![];
+    for h in hs { if let Err(e) = h.join() { panics.push(panic_text(&e)); } }
+    if panics.is_empty() { Ok(()) } else { Err(format!("{} thread(s) panicked: {}", panics.len(), panics[0])) }
+}
+fn panic_text(e: &Box<dyn std::any::Any + Send>) -> String {
+    e.downcast_ref::<String>().cloned().or_else(|| e.downcast_ref::<&str>().map(|s| s.to_string())).unwrap_or("?".into())
+}
+
 fn free_run(seed: u64) -> Vec<(String, String)> {
     use reactive_mutiny::ogre_std::ogre_queues::{atomic::NonBlockingQueue as AQ, full_sync::NonBlockingQueue as FQ, OgreQueue};
     let mut viol = vec![];
-    let threads = 8usize;
-    let per = 20_000u32;
-    // stacks
-    for pl in [false, true] {
-        let st = make_stack(pl, 8);
+    std::panic::set_hook(Box::new(|_| {}));
+    // stacks: every capacity, 2..8 threads (small capacities keep the stack at its full / empty boundaries all the time)
+    for pl in [false, true] { for (cap, threads, per) in [(2usize, 2usize, 30_000u32), (2, 4, 15_000), (4, 4, 15_000), (8, 8, 20_000)] {
+        let name = format!("free-running {}stack (capacity {cap}, {threads} threads)", if pl {"parking-lot "} else {"atomic-flag "});
+        let st = make_stack(pl, cap);
         let popped: Arc<Mutex<Vec<u32>>> = Arc::new(Mutex::new(vec![]));
         let pushed = Arc::new(AtomicUsize::new(0));
-        let hs: Vec<_> = (0..threads).map(|t| { let (st, popped, pushed) = (st.clone(), popped.clone(), pushed.clone()); std::thread::spawn(move || {
+        let done = Arc::new(AtomicUsize::new(0));
+        let hs: Vec<_> = (0..threads).map(|t| { let (st, popped, pushed, done) = (st.clone(), popped.clone(), pushed.clone(), done.clone()); std::thread::spawn(move || {
             let mut mine = vec![]; let mut r = Rng::new(seed + t as u64);
+            // thread roles: mixed, or (first two threads of the 4-thread runs) only-push / only-pop bursts
             for i in 0..per { if r.chance(1, 2) { if st.push(t as u32 * 1_000_000 + i) { pushed.fetch_add(1, SeqCst); } } else if let Some(v) = st.pop() { mine.push(v) } }
             popped.lock().unwrap().extend(mine);
+            done.fetch_add(1, SeqCst);
         }) }).collect();
-        for h in hs { h.join().unwrap(); }
+        if let Err(why) = join_watchdog(hs, done, 20) { viol.push(("hang_or_panic".into(), format!("{name}: {why}"))); std::mem::forget(st); continue }
         let mut rest = vec![]; while let Some(v) = st.pop() { rest.push(v) }
+        if rest.len() > cap { viol.push(("capacity".into(), format!("{name}: {} elements drained from a stack of capacity {cap}", rest.len()))); }
         let mut all = popped.lock().unwrap().clone(); all.extend(rest);
         let total = all.len(); all.sort(); all.dedup();
-        if all.len() != total { viol.push(("duplicate".into(), format!("free-running {}stack: {} elements popped twice", if pl {"pl"} else {""}, total - all.len()))); }
-        if total != pushed.load(SeqCst) { viol.push(("lost".into(), format!("free-running {}stack: pushed {} popped {}", if pl {"pl"} else {""}, pushed.load(SeqCst), total))); }
-    }
+        if all.len() != total { viol.push(("duplicate".into(), format!("{name}: {} elements popped twice", total - all.len()))); }
+        if total != pushed.load(SeqCst) { viol.push(("lost".into(), format!("{name}: pushed {} popped {}", pushed.load(SeqCst), total))); }
+    } }
     // queues: conservation + per-producer FIFO per consumer
-    macro_rules! q { ($ty:ty, $name:expr) => {{
+    macro_rules! q { ($ty:ty, $name:expr, $threads:expr, $per:expr) => {{
+        let threads: usize = $threads; let per: u32 = $per;
         let q: Arc<$ty> = Arc::new(<$ty as OgreQueue<u32>>::new($name.to_string()));
         let got: Arc<Mutex<Vec<Vec<u32>>>> = Arc::new(Mutex::new(vec![]));
         let sent = Arc::new(AtomicUsize::new(0));
-        let hs: Vec<_> = (0..threads).map(|t| { let (q, got, sent) = (q.clone(), got.clone(), sent.clone()); std::thread::spawn(move || {
+        let done = Arc::new(AtomicUsize::new(0));
+        let hs: Vec<_> = (0..threads).map(|t| { let (q, got, sent, done) = (q.clone(), got.clone(), sent.clone(), done.clone()); std::thread::spawn(move || {
             let mut mine = vec![];
             for i in 0..per { if t % 2 == 0 { if q.enqueue(((t as u32) << 24) | i).is_none() { sent.fetch_add(1, SeqCst); } } else if let Some(v) = q.dequeue() { mine.push(v) } }
             got.lock().unwrap().push(mine);
+            done.fetch_add(1, SeqCst);
         }) }).collect();
-        for h in hs { h.join().unwrap(); }
-        let mut rest = vec![]; while let Some(v) = q.dequeue() { rest.push(v) }
-        let mut g = got.lock().unwrap().clone(); g.push(rest);
-        let total: usize = g.iter().map(|x| x.len()).sum();
-        if total != sent.load(SeqCst) { viol.push(("lost_or_invented".into(), format!("free-running {}: enqueued {} dequeued {}", $name, sent.load(SeqCst), total))); }
-        for seq in &g { let mut last = std::collections::HashMap::new(); for v in seq { let p = v >> 24; let i = v & 0xFFFFFF; if let Some(l) = last.insert(p, i) { if l >= i { viol.push(("fifo".into(), format!("free-running {}: producer {p}: {i} dequeued after {l} by one consumer", $name))); break } } } }
+        match join_watchdog(hs, done, 20) {
+            Err(why) => { viol.push(("hang_or_panic".into(), format!("free-running {} ({threads} threads): {why}", $name))); std::mem::forget(q); }
+            Ok(()) => {
+                let mut rest = vec![]; while let Some(v) = q.dequeue() { rest.push(v) }
+                let mut g = got.lock().unwrap().clone(); g.push(rest);
+                let total: usize = g.iter().map(|x| x.len()).sum();
+                if total != sent.load(SeqCst) { viol.push(("lost_or_invented".into(), format!("free-running {}: enqueued {} dequeued {}", $name, sent.load(SeqCst), total))); }
+                let mut all: Vec<u32> = g.iter().flatten().cloned().collect(); let n0 = all.len(); all.sort(); all.dedup();
+                if all.len() != n0 { viol.push(("duplicate".into(), format!("free-running {}: {} elements dequeued twice", $name, n0 - all.len()))); }
+                for seq in &g { let mut last = std::collections::HashMap::new(); for v in seq { let p = v >> 24; let i = v & 0xFFFFFF; if let Some(l) = last.insert(p, i) { if l >= i { viol.push(("fifo".into(), format!("free-running {}: producer {p}: {i} dequeued after {l} by one consumer", $name))); break } } } }
+            }
+        }
     }}}
-    q!(AQ<u32, 8>, "atomic queue");
-    q!(FQ<u32, 8>, "full-sync queue");
+    q!(AQ<u32, 2>, "atomic queue (capacity 2)", 4, 15_000);
+    q!(FQ<u32, 2>, "full-sync queue (capacity 2)", 4, 15_000);
+    q!(AQ<u32, 8>, "atomic queue (capacity 8)", 8, 20_000);
+    q!(FQ<u32, 8>, "full-sync queue (capacity 8)", 8, 20_000);
+    let _ = std::panic::take_hook();
     viol
 }
 
